@@ -631,4 +631,124 @@ pub fn run(ctx: &mut Ctx) {
             ctx.violation("c10:datagram:wrong-records".into(), json!({"records": k, "outcome": classify(&r2).show(), "input_hex": hex_short(&dg)}));
         }
     });
+
+    // ------------------------------------------------ record by record: well-formed records followed by a record whose (whole,
+    // unfragmented) handshake body is structurally invalid in one of many ways. The records before it are returned
+    // and the remainder starts at the bad record, exactly as when the caller applies the single-record parser
+    // repeatedly; a later record never changes what earlier records decode to
+    ctx.floor("datagrams.bad-later-record", 4000);
+    let n = ctx.tier.pick(8000, 80000);
+    ctx.family("datagrams-bad-later-record", n, |ctx, case: &mut Case| {
+        let r = &mut case.rng;
+        let k = r.usize(1, 4);
+        let mut dg = Vec::new();
+        let mut exp = Vec::new();
+        let mut parts = Vec::new();
+        for _ in 0..k {
+            let ct = *r.pick(&[0x14u8, 0x15, 0x16, 0x16]);
+            let msgs = gen::dtls_msg_list(r, gen::TINY, ct);
+            let mut w = W::new();
+            for m in &msgs {
+                m.enc(&mut w);
+            }
+            let h = gen::dtls_hdr(r, ct);
+            dg.extend_from_slice(&refenc::dtls_record(&h, &w.b));
+            parts.push((h, msgs, w.b.len()));
+        }
+        for (h, msgs, l) in &parts {
+            exp.push(DTLSPlaintext {
+                header: DTLSRecordHeader { content_type: TlsRecordType(h.ty), version: TlsVersion(h.ver), epoch: h.epoch, sequence_number: h.seq, length: *l as u16 },
+                messages: msgs.iter().map(|m| m.expected()).collect(),
+            });
+        }
+        let good_len = dg.len();
+        // the bad record
+        let kind = r.below(14);
+        let rl = r.usize(0, 34);
+        let rl2 = r.usize(0, 80);
+        let (ty, body): (u8, Vec<u8>) = match kind {
+            0 => {
+                // ClientHello: session id length 33..255 (bytes present)
+                let sl = r.usize(33, 255);
+                let mut b = vec![0xfe, 0xfd];
+                b.extend(r.bytes(32));
+                b.push(sl as u8);
+                b.extend(r.bytes(sl));
+                b.extend([0, 0, 2, 0x13, 0x01, 1, 0]);
+                (1, b)
+            }
+            1 => {
+                // ClientHello: odd cipher list length
+                let mut b = vec![0xfe, 0xfd];
+                b.extend(r.bytes(32));
+                b.extend([0, 0, 0, 3, 0x13, 0x01, 0x00, 1, 0]);
+                (1, b)
+            }
+            2 => {
+                // ClientHello: cookie runs past the body
+                let mut b = vec![0xfe, 0xfd];
+                b.extend(r.bytes(32));
+                b.extend([0, 200, 1, 2, 3]);
+                (1, b)
+            }
+            3 => {
+                // ClientHello cut inside the random
+                let l = r.usize(0, 33);
+                let mut b = vec![0xfe, 0xfd];
+                b.extend(r.bytes(l));
+                b.truncate(l.max(1));
+                (1, b)
+            }
+            4 => {
+                // ServerHello: session id 33..255
+                let sl = r.usize(33, 255);
+                let mut b = vec![0xfe, 0xfd];
+                b.extend(r.bytes(32));
+                b.push(sl as u8);
+                b.extend(r.bytes(sl));
+                b.extend([0x13, 0x01, 0]);
+                (2, b)
+            }
+            5 => (2, r.bytes(rl)),
+            6 => (3, vec![0xfe, 0xff, 200, 1, 2]),
+            7 => (3, vec![0xfe]),
+            8 => (11, vec![0, 0x10, 0, 0, 0, 5, 1, 2, 3, 4, 5]),
+            9 => (11, vec![0, 0]),
+            10 => (*r.pick(&[5u8, 6, 7, 9, 10, 17, 19, 21, 23, 25, 60, 99, 200, 255]), r.bytes(rl + 6)),
+            11 => (1, r.bytes(rl2)),
+            12 => (2, { let mut b = vec![3, 3]; b.extend(r.bytes(32)); b.push(40); b }),
+            _ => (3, r.bytes(rl % 3)),
+        };
+        let mut w = W::new();
+        w.u8(ty);
+        w.u24(body.len() as u32);
+        let ms = r.u16();
+        w.u16(ms);
+        w.u24(0);
+        w.u24(body.len() as u32);
+        w.bytes(&body);
+        let h = gen::dtls_hdr(r, 0x16);
+        let bad = refenc::dtls_record(&h, &w.b);
+        // only judged when the single-record parser itself refuses the bad record (some random bodies are well formed)
+        if parse_dtls_plaintext_record(&bad).is_ok() {
+            ctx.unjudged("generated-bad-record-is-well-formed");
+            return;
+        }
+        dg.extend_from_slice(&bad);
+        if r.bool() {
+            // and something after it
+            dg.extend_from_slice(&refenc::dtls_record(&gen::dtls_hdr(r, 0x14), &[1]));
+        }
+        let r2 = parse_dtls_plaintext_records(&dg);
+        ctx.eval();
+        ctx.shape(&("datagram-bad-later", k, kind, r2.is_ok()));
+        if matches!(&r2, Ok((rem, v)) if rem.len() == dg.len() - good_len && rem.as_ptr() == dg[good_len..].as_ptr() && veq(v, &exp)) {
+            ctx.count("datagrams.bad-later-record");
+        } else {
+            ctx.violation(
+                format!("c10:datagram:bad-later-record:kind-{}", kind),
+                json!({"good_records": k, "bad_record_kind": kind, "bad_handshake_type": ty, "outcome": classify(&r2).show(), "records_returned": r2.as_ref().map(|x| x.1.len()).unwrap_or(0), "bad_record_hex": hex_short(&bad), "input_hex": hex_short(&dg)}),
+            );
+        }
+    });
 }
